@@ -167,6 +167,67 @@ def run(rep, tier, rng):
         elif model.get(cid) != a:
             rep.violation({"broken": "correspondence Interp.evalImportSet <-> eval_import_set", "declaration": f[0],
                            "implementation": a, "model": model.get(cid)}, no_input=True)
+    # SEVERAL import declarations one after another, a later one binding a name AGAIN - to another export whose value looks the same
+    # (two counters made by one procedure, two vectors with equal contents) but is another object: after each declaration the name
+    # means what THAT declaration's import set yields; told apart through state (calling the counter, writing the vector)
+    KLIB = ("(define-library (k) (import (scheme base)) (export c1 c2 v1 v2) (begin (define (mk) (let ((n 0)) (lambda () (set! n (+ n 1)) n))) "
+            "(define c1 (mk)) (define c2 (mk)) (define v1 (make-vector 2 0)) (define v2 (make-vector 2 0))))")
+    scases, swant = [], {}
+    for j in range(120 if tier == "quick" else 3000):
+        env = {}
+        fields = ["nostd", "Rk=" + KLIB, ">(import (scheme base))"]
+        want = ["N"]
+        for _d in range(rng.randrange(2, 4)):
+            srcs = rng.sample(["c1", "c2", "v1", "v2"], rng.randrange(1, 4))
+            pairs = []
+            used = set()
+            for sname in srcs:
+                pool = (["next", "c1", "c2", "cc"] if sname[0] == "c" else ["v", "v1", "v2", "vv"])
+                t = rng.choice([x for x in pool if x not in used] or [sname])
+                used.add(t); pairs.append((sname, t))
+            ren = [(a, b) for a, b in pairs if a != b]
+            # rename is simultaneous: a target that is also a selected source is fine only if that source is renamed away too
+            names_after = [b for _, b in pairs]
+            if len(set(names_after)) != len(names_after):
+                continue
+            inner = "(only (k) %s)" % " ".join(a for a, _ in pairs)
+            decl = "(import (rename %s %s))" % (inner, " ".join("(%s %s)" % p for p in ren)) if ren else "(import %s)" % inner
+            srcset = {a for a, _ in pairs}
+            if any(b in srcset and b != a and (b, b) in pairs for a, b in pairs):
+                continue
+            fields.append(">" + decl); want.append("N")
+            for a, b in pairs:
+                env[b] = a
+        counts, vecs = {"c1": 0, "c2": 0}, {"v1": [0, 0], "v2": [0, 0]}
+        for _p in range(rng.randrange(3, 9)):
+            if not env:
+                break
+            nm = rng.choice(sorted(env))
+            obj = env[nm]
+            if obj[0] == "c":
+                counts[obj] += 1
+                fields.append(">(%s)" % nm); want.append("V i:%d" % counts[obj])
+            elif rng.random() < 0.5:
+                x = rng.randrange(1, 99); vecs[obj][0] = x
+                fields.append(">(vector-set! %s 0 %d)" % (nm, x)); want.append("V <void>")
+            else:
+                fields.append(">(vector-ref %s 0)" % nm); want.append("V i:%d" % vecs[obj][0])
+        cid = "q%d" % j
+        scases.append((cid, "libs", fields)); swant[cid] = want
+    sres, smod = C.run_hx(scases), C.run_driver(scases)
+    for cid, _, fields in scases:
+        r = sres.get(cid, [])
+        rep.count()
+        rep.nontrivial(("sequence", tuple(fields)))
+        if r != swant[cid]:
+            jx = next((x for x in range(min(len(r), len(swant[cid]))) if r[x] != swant[cid][x]), None)
+            rep.violation({"what": "after several import declarations a name does not mean what the LAST declaration binding it yields",
+                           "library": KLIB, "submissions": [f[1:] for f in fields if f.startswith(">")], "expected": swant[cid], "implementation": r,
+                           "first_difference": jx})
+        elif smod.get(cid) != r:
+            rep.violation({"broken": "correspondence Interp.evalImport <-> eval_import (declarations in sequence)", "submissions": fields,
+                           "implementation": r, "model": smod.get(cid)}, no_input=True)
+    rep.extra["declaration_sequences"] = len(scases)
     rep.extra["operators"] = len(ops)
     rep.extra["conflicting_terms"] = inadmissible
 
@@ -178,7 +239,7 @@ def main(tier, seed):
                        "<=3 of the exports plus an unknown name, prefix with 2 prefixes, rename with every single renaming into "
                        "exported/fresh names, a swap, a 3-cycle, a chain, an unknown source, the empty renaming) at depth 1 "
                        "(exhaustive) and depth 2 (6000 sampled in quick, exhaustive in thorough; sampled depth 3 in thorough), and "
-                       "two-set declarations of depth-1 terms, declarations of two or three sets of any depth with the bare library among them; terms that bind one name twice must be rejected; each run in 3 processes; "
+                       "two-set declarations of depth-1 terms, declarations of two or three sets of any depth with the bare library among them; sequences of two or three declarations that bind a name again to an equal-looking but different object (told apart through state); terms that bind one name twice must be rejected; each run in 3 processes; "
                        "distinct = distinct declaration texts")
     ok = C.standard_proof_phase(rep, MODULES, directed_search=lambda r: run(r, tier, rng))
     if ok:
